@@ -98,7 +98,7 @@ func Explore(ctx *core.Ctx, rep *core.Report, opt Options, visit func(*State)) {
 			continue
 		}
 		der.Successors(root, nil, func(desc string, enc []byte) {
-			if opt.NoCompound && (strings.Contains(desc, ":dm") || strings.Contains(desc, ":gr") || strings.Contains(desc, ":dup2")) {
+			if opt.NoCompound && (strings.Contains(desc, ":dm") || strings.Contains(desc, ":gr") || strings.Contains(desc, ":dup2") || strings.Contains(desc, ":int2:")) {
 				return
 			}
 			if opt.Only != nil && !opt.Only(desc) {
